@@ -224,6 +224,10 @@ def encUdh : Option KMap → Except Err Bytes
       if body.length > 255 then .error .dataTooLarge
       else .ok (UInt8.ofNat body.length :: body)
 
+/-- UserDataHeader.WriteTo with an explicit map iteration order (keys collected, then sorted). -/
+def encUdhIter (iter : Option (List (Nat × Bytes))) : Except Err Bytes :=
+  encUdh (iter.map (fun l => l.mergeSort keyLe))
+
 def noCoding : UInt8 := 0xBF
 
 /-- ShortMessage.WriteTo -/
